@@ -423,7 +423,18 @@ def unhexlist(s):
     return [] if s == "~" else [unhex(x) for x in s.split(",")]
 
 
-def run_lines(exe, lines, nproc=NCPU, timeout=1200, env=None):
+def _big_stack():
+    """the extracted models recurse structurally over byte lists (Coq's list functions are not tail recursive): give the
+    model runner the largest stack the system allows; never used for the implementation side"""
+    import resource
+    try:
+        soft, hard = resource.getrlimit(resource.RLIMIT_STACK)
+        resource.setrlimit(resource.RLIMIT_STACK, (hard, hard))
+    except Exception:
+        pass
+
+
+def run_lines(exe, lines, nproc=NCPU, timeout=1200, env=None, big_stack=False):
     """Feed request lines to `nproc` copies of `exe` (sharded round-robin), return replies in order."""
     if not lines:
         return []
@@ -435,7 +446,7 @@ def run_lines(exe, lines, nproc=NCPU, timeout=1200, env=None):
         if env:
             e.update(env)
         p = subprocess.run([exe], input=("\n".join(shard) + "\n").encode(), stdout=subprocess.PIPE,
-                           stderr=subprocess.PIPE, timeout=timeout, env=e)
+                           stderr=subprocess.PIPE, timeout=timeout, env=e, preexec_fn=_big_stack if big_stack else None)
         out = p.stdout.decode().split("\n")
         if out and out[-1] == "":
             out.pop()
@@ -694,7 +705,7 @@ class Ctx:
         return run_lines(self.bins["harness"], lines, nproc, timeout)
 
     def model(self, lines, nproc=NCPU, timeout=1200):
-        return run_lines(self.modelrun, lines, nproc, timeout)
+        return run_lines(self.modelrun, lines, nproc, timeout, big_stack=True)
 
     def imdl(self, args, cwd=None, stdin=b"", env=None, timeout=60):
         return run_cmd([self.bins["imdl"]] + list(args), cwd=cwd, stdin=stdin, env=env, timeout=timeout)
